@@ -1091,7 +1091,7 @@ func main() {
 	rnd := tr.NewRand(*seed)
 	cnt := 500
 	if *tier == "thorough" {
-		cnt = 15000
+		cnt = 5000
 	}
 	for i := 1; i <= cnt; i++ {
 		genCase(rnd, i)
